@@ -555,7 +555,7 @@ func cmdCheck(args []string) int {
 		if *tier == "thorough" {
 			lim = 600
 		}
-		st, out := runBoundedTest(bt.File, bt.Pkg, bt.Run, lim)
+		st, out := runBoundedTest(bt.File, bt.Pkg, bt.Run, lim, *tier)
 		boundedOut = append(boundedOut, map[string]interface{}{"name": bt.Name, "bound": bt.Bound, "status": st, "seconds": round3(time.Since(t0).Seconds()), "test": bt.File, "run": "go test -overlay <" + bt.Pkg + "/zz_verif_bounded_test.go -> " + bt.File + "> -vet=off -run " + bt.Run + " ./" + bt.Pkg})
 		switch st {
 		case "fail":
